@@ -154,50 +154,13 @@ fn run<T: Flt>(src: &mut Src, obs: &mut Obs) -> Result<(), Fail> {
     let ep = if ep == 0 && !scalar_ok { 1 } else { ep };
     let epn = ["scalar", "interp", "array1", "array2", "arraydyn"][ep];
     obs.class(format!("ep:{epn}"));
-    let qt: Vec<T> = qs.iter().map(|&q| T::of(q)).collect();
-    let mut res: Vec<Vec<T>> = Vec::with_capacity(nq);
-    match ep {
-        0 => {
-            for &q in &qt {
-                match interp.t_scalar(q).unwrap() {
-                    Ok(v) => res.push(vec![v]),
-                    Err(e) => fail!("in-range-rejected", "interp_scalar({}) -> {e}", q),
-                }
-            }
-        }
-        1 => {
-            for &q in &qt {
-                match interp.t_interp(q) {
-                    Ok(a) => res.push(a.v),
-                    Err(e) => fail!("in-range-rejected", "interp({}) -> {e}", q),
-                }
-            }
-        }
-        _ => {
-            let (qshape, qd) = match ep {
-                2 => (vec![nq], QDim::S1),
-                3 => {
-                    let a = if nq % 4 == 0 { 4 } else if nq % 3 == 0 { 3 } else if nq % 2 == 0 { 2 } else { 1 };
-                    (vec![a, nq / a], QDim::S2)
-                }
-                _ => (vec![nq], QDim::Dyn),
-            };
-            let qa = ndarray::ArrayD::from_shape_vec(IxDyn(&qshape), qt.clone()).unwrap();
-            match interp.t_array(qa.view(), qd).unwrap() {
-                Ok(a) => {
-                    let mut want = qshape.clone();
-                    want.extend_from_slice(&trailing);
-                    if a.shape != want {
-                        fail!("result-shape", "interp_array shape {:?}, expected {:?}", a.shape, want);
-                    }
-                    for k in 0..nq {
-                        res.push(a.v[k * lanes..(k + 1) * lanes].to_vec());
-                    }
-                }
-                Err(e) => fail!("in-range-rejected", "interp_array -> {e}"),
-            }
-        }
-    }
+    // evaluation through the chosen entry point (batches: query layout and order varied as a function of the content)
+    let res: Vec<Vec<T>> = match catch(|| eval1::<T>(interp.as_ref(), &qs, ep, lanes, &trailing)) {
+        Ok(Ok(r)) => r,
+        Ok(Err(f)) if f.sig == "query-rejected" => fail!("in-range-rejected", "{}", f.msg),
+        Ok(Err(f)) => return Err(f),
+        Err(p) => fail!("panic", "T={} ep={epn} axis={} n={n}: query panicked: {p}", T::NAME, class.name()),
+    };
     // oracle
     let mut nontrivial_q = false;
     for (k, &q) in qs.iter().enumerate() {
